@@ -30,7 +30,7 @@ PROP = Prop(
          "populated entry (known code / key with a type / key a release has) or of an int16 boundary; trivial = a lone point in the "
          "unpopulated bulk. distinct = distinct op lines.",
     trusted_base=["harness/cmd/c24 dump (table dumper: runs the public lookups of the linked tree over all of int16 and prints the "
-                  "run-length encoding as Lean data; the same binary's `run` mode re-observes the live code for the differential lines)",
+                  "run-length encoding as Lean data; the same binary's `run` mode re-observes the live code for the differential lines, through kmsg.Key(k).Request()/Response()/Name() and HasKey + EachMaxKeyVersion instead of the functions the dumper calls)",
                   "the dumper's list of kversion release constructors, cross-checked on every run against a go/ast scan of the kversion "
                   "sources the binary was compiled from (mismatch = broken obligation)",
                   "Model.C24.refMaxCode = 133: Apache Kafka's highest error code at the tracked protocol level (external reference, transcribed)",
@@ -49,8 +49,8 @@ MANIFEST = {
             "nothing exists above kmsg.MaxKey; every key of every named release exists in the codec with release max <= request and response "
             "MaxVersion(). The interval facts are kernel evaluations (decide +kernel); a proved cover lemma lifts them to the quantified statements. "
             "The harness re-observes the live code over all of int16 and the driver evaluates the same Specs on those answers.",
-    "note": "Trusted: Lean kernel; the Go dumper (it is the tie: a dumper that misreports the code would go unnoticed except where the separately coded "
-            "`run` observations disagree - they share the observation functions); Kafka's error-code range -1..133 as external reference; release list "
+    "note": "Trusted: Lean kernel; the Go dumper (it is the tie: a dumper that misreports the code would go unnoticed except where the `run` observations, "
+            "made through the alternative public entry points Key.Request/Response/Name and HasKey/EachMaxKeyVersion, disagree; kerr has only the one entry point); Kafka's error-code range -1..133 as external reference; release list "
             "completeness rests on the go/ast cross-check of exported `func X() *Versions`. Not covered: min versions, flexible-version tables, "
             "error descriptions, names matching Apache Kafka's spelling, unexported release tables (btip/ctip/ztip) except as reachable through "
             "constructors and FromString.",
